@@ -301,7 +301,17 @@ where
         }
     }
     // (2) out-of-range indices are errors before any work, for repeated and iterated forms
-    for j in [n, n + 1] {
+    // just beyond the list, around the machine-word sizes, aliases of the valid indices modulo
+    // 64 / 2^32, and the largest values
+    let mut js: Vec<usize> = vec![n, n + 1, 63, 64, 65, 127, 128, 129, 1usize << 32, (1usize << 32) + 1, usize::MAX, usize::MAX - 1];
+    for i in 0..n {
+        js.extend([64 + i, 128 + i, (1usize << 32) + i, usize::MAX - 63 + i]);
+    }
+    js.retain(|j| *j >= n);
+    js.sort();
+    js.dedup();
+    let near = |j: usize| j <= n + 1;
+    for j in js {
         for k in 1..=2usize {
             let c0 = from_calls();
             out.steps += 1;
@@ -314,10 +324,14 @@ where
                 }
             }
         }
-        for bad_seq in [vec![j], vec![0, j], vec![j, 0], vec![0, 0, j]] {
-            if n == 0 && bad_seq.contains(&0) && bad_seq.len() > 1 {
-                continue;
+        let mut bad_seqs = vec![vec![j]];
+        for i in 0..n {
+            bad_seqs.extend([vec![i, j], vec![j, i], vec![i, i, j]]);
+            if near(j) {
+                bad_seqs.push(vec![i, j, i]);
             }
+        }
+        for bad_seq in bad_seqs {
             let c0 = from_calls();
             out.steps += 1;
             match e0.partial_iter(&bad_seq, false) {
@@ -327,6 +341,10 @@ where
                         bad("work-before-index-error", format!("partial_iter({bad_seq:?}) differentiated before rejecting the invalid index ({} number constructions)", from_calls() - c0));
                     }
                 }
+            }
+            out.steps += 1;
+            if e0.partial_iter(&bad_seq, true).is_ok() {
+                bad("index-not-rejected", format!("partial_iter_relaxed({bad_seq:?}) accepted an index >= {n}"));
             }
         }
     }
@@ -426,7 +444,7 @@ pub fn replay(case: &Value) -> i32 {
 
 pub fn run(tier: Tier) -> i32 {
     let mut rep = Report::new("C09", tier);
-    rep.rule = "explicit-state exploration: state = (base expression, form, index history), actions = partial(i) for every i in 0..n_vars+1 (two out-of-range indices), histories of length 0..4; in every state: variable list unchanged, same slice evaluates, partial_iter / partial_iter_relaxed of the history = sequential partials, partial_nth = repeated partial, order 0 = identity, mixed partials equal in either order, out-of-range indices rejected by partial / partial_nth / partial_iter before any number is constructed; equalities are structural or decided exactly over Q (rational fragment) / by rounding bounds (else); distinct = unique structural dumps; non-trivial = history with at least one partial".into();
+    rep.rule = "explicit-state exploration: state = (base expression, form, index history), actions = partial(i) for every i in 0..n_vars+1 (two out-of-range indices; in every state also out-of-range indices around 64, 128, 2^32 and usize::MAX incl. the aliases of the valid indices modulo 64 and 2^32, alone and after / before valid ones), histories of length 0..4; in every state: variable list unchanged, same slice evaluates, partial_iter / partial_iter_relaxed of the history = sequential partials, partial_nth = repeated partial, order 0 = identity, mixed partials equal in either order, out-of-range indices rejected by partial / partial_nth / partial_iter before any number is constructed; equalities are structural or decided exactly over Q (rational fragment) / by rounding bounds (else); distinct = unique structural dumps; non-trivial = history with at least one partial".into();
     rep.assumptions = vec!["'work' is observed through a counter on the data type's From<u8>/From<f32> conversions, which only differentiation and the neutral-element shortcuts request".into()];
     install_panic_hook();
     let t = num_table();
